@@ -21,12 +21,16 @@
 (* Named deviations (constants):                                           *)
 (*   DropShares  a computed-but-never-committed block leaves its traces in *)
 (*               the shared refcount cache and in the in-memory nodes the  *)
-(*               copies share (what the code does when the block's         *)
-(*               results are simply not applied); FALSE = a dropped block  *)
-(*               leaves no trace (what the property needs)                 *)
+(*               copies share (what happens when the results of            *)
+(*               AddMPTBatch are simply not applied); FALSE = a dropped    *)
+(*               block leaves no trace (what the property needs).  Whether *)
+(*               the code behaves like TRUE or FALSE is decided by the     *)
+(*               binding, not here.  (The in-place modification of stored  *)
+(*               byte slices found on the real code is a third channel     *)
+(*               that this model does not have.)                           *)
 (*   BugGC       GC(G) also removes records that became inactive at G+1    *)
-(*   BugStale    Flush trusts a cached count of 0 ... i.e. never re-reads  *)
-(*               the store for a node missing from the cache               *)
+(*   BugStale    Flush does not read the stored count of a node that is    *)
+(*               not in the cache (starts from 0)                          *)
 (***************************************************************************)
 EXTENDS Integers, Sequences, FiniteSets, FiniteSetsExt, TLC
 
@@ -138,6 +142,9 @@ ApplyCh(c, ch) == [k \in (DOMAIN c \ DOMAIN ch) \cup {x \in DOMAIN ch : ch[x] # 
                       IF k \in DOMAIN ch THEN ch[k] ELSE c[k]]
 
 BagAt(b, n) == IF n \in DOMAIN b THEN b[n] ELSE 0
+\* Collapse: none, to a depth that leaves in-memory nodes (the cache is cleared), or to hash nodes only;
+\* whether in-memory nodes remain only matters when dropped blocks share them
+Collapses == IF DropShares THEN {"none", "deep", "full"} ELSE {"none", "full"}
 
 (***************************************************************************)
 (* One block: PutBatch + Flush(index) on a copy of the module's trie that  *)
@@ -153,18 +160,19 @@ StartCount(v, n) ==
     ELSE IF n \in DOMAIN v /\ (GCMode => v[n].active) THEN v[n].count ELSE 0
 
 \* (the \E x \in {e} bindings make TLC evaluate e once: LET definitions are re-evaluated at every use inside actions)
-Block(ch, commit, collapse) ==
-    \E index \in {height + 1}, newC \in {ApplyCh(trieC, ch)}, v \in {View(top, disk)} :
+Block(v, ch) ==
+    \E index \in {height + 1}, newC \in {ApplyCh(trieC, ch)} :
     \E oldOcc \in {OccOf[trieC]}, newOcc \in {OccOf[newC]} :
     \E dirty \in {{n \in DOMAIN oldOcc \cup DOMAIN newOcc : BagAt(newOcc, n) # BagAt(oldOcc, n)}} :
     \E cnt \in {[n \in dirty |-> StartCount(v, n) + BagAt(newOcc, n) - BagAt(oldOcc, n)]} :
     \E wr \in {[n \in dirty |-> IF cnt[n] > 0 THEN [count |-> cnt[n], active |-> TRUE, since |-> 0]
                                  ELSE IF GCMode THEN [count |-> 0, active |-> FALSE, since |-> index] ELSE Tomb]} :
     \E cache1 \in {[n \in (DOMAIN cache \ dirty) \cup {m \in dirty : cnt[m] > 0} |-> IF n \in dirty THEN cnt[n] ELSE cache[n]]} :
+    \E died \in {DOMAIN OccOf[latestC] \ DOMAIN newOcc} :
+    \E commit \in BOOLEAN, collapse \in Collapses :
     LET neg    == \E n \in dirty : cnt[n] < 0
         cache2 == IF collapse # "none" THEN <<>> ELSE cache1
         exp2   == collapse # "full"
-        died   == DOMAIN OccOf[latestC] \ DOMAIN newOcc
     IN  /\ ~panic
         /\ height < MaxH
         /\ IF neg THEN
@@ -208,9 +216,7 @@ Reinit ==
     /\ last' = [op |-> "reinit"]
     /\ UNCHANGED <<disk, top, latestC, height, roots, contAt, G, drops, deadAt, panic>>
 
-Collapses == {"none", "deep", "full"}
-
-Next == \/ \E ch \in Batches, commit \in BOOLEAN, col \in Collapses : Block(ch, commit, col)
+Next == \/ \E v \in {View(top, disk)} : \E ch \in Batches : Block(v, ch)
         \/ Persist
         \/ \E g \in 1..MaxH : GC(g)
         \/ Reinit
